@@ -14,7 +14,7 @@ import (
 // Engine "ordinals": the client helpers that answer questions about the desired ordinal set.
 //
 //	case: r|kind|hex(raw)      kind = nil (annotation map nil) | absent (map without the key) | raw (value = raw)
-//	obs : slots=<sorted> bound=<n> eff=<sorted> ords=<sorted> ords2=<sorted> max=<n> min=<n> next=<ordinals for r+3, same set object> mut=<slot set modified by the helpers?>
+//	obs : slots=<sorted> bound=<n> eff=<sorted> ords=<sorted> ords2=<sorted> max=<n> min=<n> next=<ordinals for r+3, same set object> mut=<slot set modified by the helpers?> alias=<answers for a twin object change after the caller modified the returned sets?>
 func init() {
 	engines["ordinals"] = &Engine{Gen: genOrdinals, Enum: enumOrdinals, Run: runOrdinals}
 }
@@ -45,8 +45,33 @@ func runOrdinals(line string) string {
 	// the helpers must not modify the set they are given: ask again, with the same set object, for a larger replica count
 	next := helper.GetPodOrdinalsFromReplicasAndDeleteSlots(r+3, slots)
 	mut := joinInt32s(slots.List()) != joinInt32s(parsed)
-	return fmt.Sprintf("slots=%s bound=%d eff=%s ords=%s ords2=%s max=%d min=%d next=%s mut=%s",
-		joinInt32s(parsed), bound, joinInt32s(eff.List()), joinInt32s(ords.List()), joinInt32s(ords2.List()), mx, mn, joinInt32s(next.List()), b2s(mut))
+	// the sets the helpers return belong to the caller (the usual read-modify-write of a client: get, insert, set): changing
+	// them must not change what the helpers answer for another object carrying the same annotation
+	ordsBefore, ords2Before, effBefore := joinInt32s(ords.List()), joinInt32s(ords2.List()), joinInt32s(eff.List())
+	probe := int32(0)
+	for slots.Has(probe) {
+		probe++
+	}
+	slots.Insert(probe)
+	eff.Insert(probe)
+	ords.Delete(probe)
+	ords.Insert(1 << 20)
+	ords2.Insert(1 << 20)
+	twin := &metav1.ObjectMeta{}
+	if obj.Annotations != nil {
+		twin.Annotations = map[string]string{}
+		for k, v := range obj.Annotations {
+			twin.Annotations[k] = v
+		}
+	}
+	slotsT := helper.GetDeleteSlots(twin)
+	_, effT := helper.GetMaxReplicaCountAndDeleteSlots(r, slotsT)
+	alias := joinInt32s(slotsT.List()) != joinInt32s(parsed) || joinInt32s(effT.List()) != effBefore ||
+		joinInt32s(helper.GetPodOrdinals(r, twin).List()) != ordsBefore ||
+		joinInt32s(helper.GetPodOrdinalsFromReplicasAndDeleteSlots(r, slotsT).List()) != ordsBefore ||
+		helper.GetMaxPodOrdinal(r, twin) != mx || helper.GetMinPodOrdinal(r, twin) != mn
+	return fmt.Sprintf("slots=%s bound=%d eff=%s ords=%s ords2=%s max=%d min=%d next=%s mut=%s alias=%s",
+		joinInt32s(parsed), bound, effBefore, ordsBefore, ords2Before, mx, mn, joinInt32s(next.List()), b2s(mut), b2s(alias))
 }
 
 func ordCase(r int, kind, raw string) string {
